@@ -139,6 +139,13 @@ var c15Cases = []c15Case{
 	{"{\n  @k: 1,\n  \"z\": 2\n}", [][2]string{{"@k", `"a\"" // {regex: "a."}`}}},
 	{`@t`, [][2]string{{"@t", "{\n  \"kids\": [\n    @t,\n    1\n  ]\n}"}}},
 	{`@t`, [][2]string{{"@t", "{\n  \"kids\": [\n    1,\n    @t\n  ]\n}"}}},
+	{`{} // {or: [{type: "object"}, {type: "string"}]}`, nil},
+	{`[] // {or: [{type: "array"}, {type: "string"}]}`, nil},
+	{"{\n  \"k\": [] // {or: [{type: \"array\"}, {type: \"integer\"}], optional: true}\n}", nil},
+	{`{} // {or: [{type: "object"}, {type: "string"}], nullable: true}`, nil},
+	{`12 // {type: "@t", nullable: true}`, [][2]string{{"@t", `12 // {min: 10}`}}},
+	{"{\n  \"v\": 12 // {or: [{type: \"@t\", nullable: true}, \"@u\"]}\n}", [][2]string{{"@t", `12 // {min: 10}`}, {"@u", `"abc"`}}},
+	{"{\n  @k: 1\n}", [][2]string{{"@k", `@k | @s`}, {"@s", `"abc"`}}},
 }
 
 // ZZC15Types: user types, or, enum, allOf, key shortcuts, optional recursion.
@@ -165,7 +172,47 @@ func ZZC15Types() {
 	v.Assert(s.Validate(json.New("d", ex)) == nil, "C15/example-rejected-by-its-own-schema")
 }
 
+// ZZC15Keys: a key shortcut whose string type has a symbolic example (the empty string, plain
+// bytes, escape sequences), first, in the middle or last among literal keys.
+func ZZC15Keys() {
+	lit, dec := docString(v.Param("pieces", 2), v.Param("piecekinds", 6))
+	if v.Choose(0, 1) == 1 {
+		lit = cat(lit, bs(" // {minLength: 0}"))
+	}
+	pos := v.Choose(0, 2)
+	// fingerprint for the known finding: the key type's example is spelled like a literal sibling key
+	collision := "no"
+	if (pos > 0 && eqBytes(dec, bs("a1"))) || (pos < 2 && eqBytes(dec, bs("z9"))) {
+		collision = "key-example-equals-literal-sibling-key"
+	}
+	v.Observe("collision", collision)
+	root := "{\n"
+	if pos > 0 {
+		root += "  \"a1\": 1,\n"
+	}
+	root += "  @k: 1"
+	if pos < 2 {
+		root += ",\n  \"z9\": 2"
+	}
+	root += "\n}"
+	v.Observe("schema", root)
+	v.Observe("keytype", lit)
+	s := jschema.New("s", root)
+	v.Assert(s.AddType("@k", jschema.New("@k", lit)) == nil, "C15/addtype-failed")
+	v.Assume(s.Check() == nil)
+	ex, err := s.Example()
+	v.Assert(err == nil, "C15/example-error-on-accepted-schema")
+	if err != nil {
+		return
+	}
+	v.Observe("example", ex)
+	v.Reach("C15/keys")
+	v.Assert(gen.JSONText(ex), "C15/example-is-not-well-formed-json")
+	v.Assert(s.Validate(json.New("d", ex)) == nil, "C15/example-rejected-by-its-own-schema")
+}
+
 func init() {
+	ZZHarnesses["ZZC15Keys"] = ZZC15Keys
 	ZZHarnesses["ZZC15Plain"] = ZZC15Plain
 	ZZHarnesses["ZZC15Types"] = ZZC15Types
 }
